@@ -5,7 +5,7 @@
    outside the agent are runtime behaviour this model cannot exhibit; they are observed by the harness
    (race detector, watchdog) and not proved.  What is proved holds for every schedule and history. *)
 From Coq Require Import NArith ZArith List Bool.
-From StunV Require Import Base.ListAux Model.Agent Model.AgentConc Proofs.AgentProofs Proofs.AgentConcProofs Proofs.AgentNestProofs.
+From StunV Require Import Base.ListAux Model.Agent Model.AgentConc Proofs.AgentProofs Proofs.AgentConcProofs Proofs.AgentNestProofs Proofs.AgentLinCheckProofs.
 Import ListNotations.
 Open Scope N_scope.
 
@@ -67,6 +67,19 @@ Theorem C14_seq_explains_sound : forall same_evs cs s, seq_explains s cs same_ev
           cs (snd (a_run s (map oc_op cs))).
 Proof. exact seq_explains_sound. Qed.
 
+(* ... and complete: whenever all calls have returned, the calls as an observer records them from the history
+   alone (positions of invocation and response, operation, return value, events received) pass that check for
+   the order of the critical sections, and that order covers every call that was invoked.  So the harness
+   rejects a recorded history only if NO order explains it - never because the check asks for more than the
+   semantics delivers (any reflexive comparison of event lists, e.g. equality of the sorted lists) *)
+Theorem C14_lin_check_complete : forall h0 g same, (forall e, same e e = true) ->
+  reachable (init_cfg h0) g -> (forall t, thr g t = []) ->
+  exists cs, obs_calls (hist g) (map l_cid (lin g)) = Some cs /\
+             lin_check h0 cs (iotaN (length cs)) same = true /\
+             (forall t c o, In (HInv t c o) (hist g) -> In c (map l_cid (lin g))).
+Proof. exact lin_check_complete. Qed.
+Print Assumptions C14_lin_check_complete.
+
 (* non-vacuity: a schedule in which Stop(7) by goroutine 0, Collect by goroutine 2 and Close by goroutine
    1 overlap on the registered transaction 7, with a handler calling back (Start 8) from Stop's event:
    Close wins the race for the mutex, emits the only terminal event of 7 under the mutex, Stop finds
@@ -123,3 +136,19 @@ Proof.
     [HInv 0 0 (AStart 7 5); HRes 0 0 ROk], [HEv 0 1 (mkEv 1 7 K_STOPPED 0 true)], []. split; [reflexivity|].
   intros r [H|[]]. discriminate H.
 Qed.
+
+(* non-vacuity of C14_lin_check_complete: the reentrant schedule above run to the end is quiescent; its three
+   observed calls are found in the history and the check accepts them in critical-section order *)
+Example C14_lin_check_complete_nonvacuous :
+  match exec (init_cfg 1) [ActInvoke 0 (AStart 7 5); ActStep 0; ActStep 0; ActStep 0;
+                           ActInvoke 0 (AStopErr 7 0); ActStep 0; ActStep 0; ActStep 0;
+                           ActInvoke 0 (AStart 8 3); ActStep 0; ActStep 0; ActStep 0; ActStep 0] with
+  | Some g => thr g 0%nat = [] /\
+              match obs_calls (hist g) (map l_cid (lin g)) with
+              | Some cs => length cs = 3%nat /\ map oc_inv cs = [0; 2; 4] /\ map oc_res cs = [1; 6; 5] /\
+                           lin_check 1 cs (iotaN 3) (fun a b => true) = true
+              | None => False
+              end
+  | None => False
+  end.
+Proof. vm_compute. repeat split. Qed.
